@@ -310,4 +310,84 @@ theorem convertCell_spec {c o : Cell} {rate : Num} {target : String}
       exact ⟨rfl, by rw [if_neg hc]⟩
 
 
+
+/-! ### sums over ℚ -/
+
+theorem sum_map_mul_right (l : List Rat) (c : Rat) : (l.map (· * c)).sum = l.sum * c := by
+  induction l with
+  | nil => simp
+  | cons a rest ih => simp only [List.map_cons, List.sum_cons, ih]; ring
+
+theorem sum_map_mul_left (l : List Rat) (c : Rat) : (l.map (c * ·)).sum = c * l.sum := by
+  induction l with
+  | nil => simp
+  | cons a rest ih => simp only [List.map_cons, List.sum_cons, ih]; ring
+
+theorem sum_map_div (l : List Rat) (c : Rat) : (l.map (· / c)).sum = l.sum / c := by
+  induction l with
+  | nil => simp
+  | cons a rest ih => simp only [List.map_cons, List.sum_cons, ih]; ring
+
+theorem renorm_sum {ws : List Rat} (h : ws.sum ≠ 0) : (renorm ws).sum = 1 := by
+  unfold renorm
+  rw [sum_map_div]; exact div_self h
+
+/-- `_weight_cell_values` on a scalar or 1-d array: the k-th part is the value times the k-th weight -/
+theorem weightValue_data {v : Val} {ws : List Rat} {parts : List Val}
+    (h : weightValue v ws = .ok parts) :
+    parts.map Spec.C18.vdata = ws.map fun w => (Spec.C18.vdata v).map (· * w) := by
+  unfold weightValue at h
+  have := mapM_ok_forall2 h
+  clear h
+  induction this with
+  | nil => rfl
+  | cons hr _ ih =>
+    simp only [List.map_cons, ih, List.cons.injEq, and_true]
+    split at hr <;> cases hr <;> simp [Spec.C18.vdata, Val.data]
+
+/-! ### foldlM / deriveMetadata -/
+
+theorem foldlM_invariant {α β} {f : β → α → Except Err β} (P : β → Prop)
+    (hstep : ∀ b a b', P b → f b a = .ok b' → P b') {l : List α} {b r : β} (h0 : P b)
+    (h : l.foldlM f b = .ok r) : P r := by
+  induction l generalizing b with
+  | nil => simp [List.foldlM_nil, pure, Except.pure] at h; subst h; exact h0
+  | cons a rest ih =>
+    rw [List.foldlM_cons] at h
+    cases hf : f b a with
+    | error e => simp [hf, bind, Except.bind] at h
+    | ok b' =>
+      simp only [hf, bind, Except.bind] at h
+      exact ih (hstep b a b' h0 hf) h
+
+theorem deriveMetadata_riskBasis {t r : List Cell} {s : Option String}
+    (h : Triangle.deriveMetadata t (.riskBasis s) = .ok r) : ∀ o ∈ r, o.md.riskBasis = s := by
+  unfold Triangle.deriveMetadata at h
+  cases hm : t.mapM (fun c => ({ c with md := c.md.edit (.riskBasis s) } : Cell).mk?) with
+  | error e => simp [hm, bind, Except.bind] at h
+  | ok cells =>
+    simp only [hm, bind, Except.bind] at h
+    intro o ho
+    have ho' := (ofCells_perm' h).mem_iff.mp ho
+    obtain ⟨c, _, hc⟩ := (mapM_ok_forall2 hm).mem_right ho'
+    obtain ⟨rfl, _⟩ := mk?_ok hc
+    rfl
+
+
+/-- every row of the normalised share table sums to 1 (or to 0 when the raw total is 0) -/
+theorem aqShares_row_sum {ps pys : List (Date × Date)} {len : Nat} {cont : Bool} :
+    ∀ e ∈ aqShares ps pys len cont, (e.2.map (·.2)).sum = 1 ∨ (e.2.map (·.2)).sum = 0 := by
+  intro e he
+  unfold aqShares at he
+  obtain ⟨aq, _, rfl⟩ := List.mem_map.mp he
+  simp only [List.map_map]
+  generalize (List.filterMap _ _ : List ((Date × Date) × Rat)) = raw
+  have : (List.map ((fun x => x.2) ∘ fun x : (Date × Date) × Rat => (x.1, x.2 / (List.map (fun x => x.2) raw).sum)) raw)
+      = (raw.map (·.2)).map (· / (raw.map (·.2)).sum) := by
+    simp [List.map_map, Function.comp]
+  rw [this, sum_map_div]
+  by_cases h : (raw.map (·.2)).sum = 0
+  · right; simp [h]
+  · left; exact div_self h
+
 end Bermuda.Units
